@@ -180,15 +180,35 @@ func parseSpecExpr(text string) (ast.Expr, error) {
 	return parser.ParseExpr(t)
 }
 
-func parseContracts(path string) (map[string]*Contract, error) {
+// UnitHeader is the `//@ unit <name> key=value ...` line that opens a verification unit in a contracts file.
+type UnitHeader struct {
+	Name   string
+	File   string
+	Line   int
+	Attrs  map[string]string
+}
+
+var unitAttrRe = regexp.MustCompile("([a-z_]+)=(`[^`]*`|\\S+)")
+
+func parseUnitHeader(line string) UnitHeader {
+	fields := strings.Fields(line)
+	h := UnitHeader{Name: fields[1], Attrs: map[string]string{}}
+	for _, m := range unitAttrRe.FindAllStringSubmatch(line, -1) {
+		h.Attrs[m[1]] = strings.Trim(m[2], "`")
+	}
+	return h
+}
+
+// listUnits returns the unit headers of a contracts file.
+func listUnits(path string) ([]UnitHeader, error) {
 	f, err := os.Open(path)
 	if err != nil {
 		return nil, err
 	}
 	defer f.Close()
-	out := map[string]*Contract{}
-	var cur *Contract
+	var out []UnitHeader
 	sc := bufio.NewScanner(f)
+	sc.Buffer(make([]byte, 1<<20), 1<<20)
 	ln := 0
 	for sc.Scan() {
 		ln++
@@ -197,6 +217,48 @@ func parseContracts(path string) (map[string]*Contract, error) {
 			continue
 		}
 		line = strings.TrimSpace(strings.TrimPrefix(line, "//@"))
+		if strings.HasPrefix(line, "unit ") {
+			h := parseUnitHeader(line)
+			h.File, h.Line = path, ln
+			out = append(out, h)
+		}
+	}
+	return out, nil
+}
+
+// externContracts: names of contracts declared with `extern` (assumed, never proved here).
+var externContracts = map[string]bool{}
+
+// parseContracts reads the //@ lines of one unit ("" = the whole file, for stand-alone .contracts/.spec files).
+// Lines before the first `unit` header (a file-level common section) belong to every unit of the file.
+func parseContracts(path string, unit string) (map[string]*Contract, error) {
+	f, err := os.Open(path)
+	if err != nil {
+		return nil, err
+	}
+	defer f.Close()
+	out := map[string]*Contract{}
+	var cur *Contract
+	sc := bufio.NewScanner(f)
+	sc.Buffer(make([]byte, 1<<20), 1<<20)
+	ln := 0
+	active := true
+	for sc.Scan() {
+		ln++
+		line := strings.TrimSpace(sc.Text())
+		if !strings.HasPrefix(line, "//@") {
+			continue
+		}
+		line = strings.TrimSpace(strings.TrimPrefix(line, "//@"))
+		if strings.HasPrefix(line, "unit ") {
+			h := parseUnitHeader(line)
+			active = unit == "" || h.Name == unit
+			cur = nil
+			continue
+		}
+		if !active {
+			continue
+		}
 		if i := strings.Index(line, " //"); i >= 0 { // trailing comment
 			line = strings.TrimSpace(line[:i])
 		}
@@ -307,7 +369,11 @@ func parseContracts(path string) (map[string]*Contract, error) {
 			axioms = append(axioms, &Axiom{Binders: bs, Expr: e, Text: rest, Name: axName})
 			continue
 		case "func", "extern":
+			isExtern := fields[0] == "extern"
 			line = strings.Replace(line, "extern", "func", 1)
+			if isExtern {
+				externContracts[strings.TrimSpace(strings.TrimPrefix(line, "func"))] = true
+			}
 			cur = &Contract{Func: strings.TrimSpace(strings.TrimPrefix(line, "func")), LoopInv: map[int][]Clause{}, LoopDec: map[int]ast.Expr{}, SrcLine: ln}
 			out[cur.Func] = cur
 		case "pure":
